@@ -69,7 +69,7 @@ def cases(tier, seed, shard, nshards):
                "body": rng.random() < 0.6, "susp": rng.choice([0, 1, 1, 2])}
     # histories: enumerated up to length 4 over a small alphabet, random beyond
     alphabet = [["reg", "acm"], ["reg", "cb"], ["aclose", 0], ["pop_all", 0], ["block", 0, False], ["block", 0, True],
-                ["enter_fail", 0], ["aclose", 1]]
+                ["enter_fail", 0], ["aclose", 1], ["reg", "popper"]]
     maxlen = 4 if tier == "quick" else 5
     for n in range(1, maxlen + 1):
         for hist in itertools.product(alphabet, repeat=n):
@@ -82,7 +82,10 @@ def cases(tier, seed, shard, nshards):
         for _ in range(rng.randint(1, 10)):
             r = rng.random()
             k = rng.randrange(nstacks)
-            if r < 0.4:
+            if r < 0.07:
+                ops.append(["reg", "popper", k])
+                nstacks += 1  # a stack is created when (if) the popper runs; indices beyond are folded to 0
+            elif r < 0.4:
                 ops.append(["reg", rng.choice(KINDS), k])
             elif r < 0.5:
                 ops.append(["enter_fail", k])
@@ -410,11 +413,19 @@ def exec_history(ops, factory):
                     k = op[2] if len(op) > 2 else 0
                     if k >= len(stacks):
                         k = 0
-                    ent = mk_entry(kind, "falsy", nid, log, 0, 0)
-                    if kind in ("acm", "scm"):
-                        await stacks[k].enter(kind, ent)
+                    if kind == "popper":
+                        # a callback that, while its stack unwinds, moves everything still registered to a new stack
+                        def popper(*a, _k=k, _i=nid, **kw):
+                            log.append(("cb", _i, a, tuple(kw.items())))
+                            stacks.append(stacks[_k].pop_all())
+
+                        stacks[k].push_kind("cb", popper, nid)
                     else:
-                        stacks[k].push_kind(kind, ent, nid)
+                        ent = mk_entry(kind, "falsy", nid, log, 0, 0)
+                        if kind in ("acm", "scm"):
+                            await stacks[k].enter(kind, ent)
+                        else:
+                            stacks[k].push_kind(kind, ent, nid)
                     nid += 1
                 elif op[0] == "enter_fail":
                     k = op[1] if op[1] < len(stacks) else 0
@@ -455,19 +466,27 @@ def model_history(ops):
         ran = []
         if op[0] == "reg":
             k = op[2] if len(op) > 2 and op[2] < len(pending) else 0
-            pending[k].append((nid, op[1]))
+            pending[k].append((nid, op[1], k))
             nid += 1
         elif op[0] == "enter_fail":
             ran.append(("enter-raised", "enter"))
         elif op[0] in ("aclose", "block"):
             k = op[1] if op[1] < len(pending) else 0
             exc = "block" if (op[0] == "block" and op[2]) else None
-            for i, kind in reversed(pending[k]):
-                if kind == "cb":
+            # like the implementations: entries are popped one by one from the stack's *current* content
+            while pending[k]:
+                entry = pending[k].pop()
+                i, kind = entry[0], entry[1]
+                if kind == "popper":
+                    ran.append(("cb", i, (i,), (("kw", i),)))
+                    origin = entry[2]
+                    # whatever the stack it was registered on holds right now moves to a new stack
+                    pending.append(pending[origin])
+                    pending[origin] = []
+                elif kind == "cb":
                     ran.append(("cb", i, (i,), (("kw", i),)))
                 else:
                     ran.append(("exit", i, exc, "E" if exc else None))
-            pending[k] = []
             if exc:
                 ran.append(("block-raised", "block"))
         elif op[0] == "pop_all":
